@@ -137,6 +137,48 @@ def sat3(rng, n, ratio=4.1):
     return "\n".join(out) + "\n"
 
 
+def lia_bb(rng):
+    """boxed integer variables, a few two-sided rows  L <= sum c_j x_j <= L + w  with |c_j| ~ 2^40: the relaxation is
+    rational almost everywhere, branch-and-bound needs many rounds, so the cuts-from-proofs code (every 10th round)
+    and its big-number matrix arithmetic run"""
+    n, rows = rng.randint(4, 6), rng.randint(3, 4)
+    xs = ["x%d" % i for i in range(n)]
+    out = ["(set-logic QF_LIA)"] + ["(declare-fun %s () Int)" % x for x in xs]
+    out += ["(assert (and (<= (- 40) %s) (<= %s 40)))" % (x, x) for x in xs]
+    for _ in range(rows):
+        cs = [(rng.getrandbits(40) | (1 << 40)) * rng.choice([1, -1]) for _ in xs]
+        lo = (rng.getrandbits(40) | (1 << 40)) * rng.choice([1, -1])
+        w = (1 << 38) + rng.getrandbits(38)
+        s = "(+ %s)" % " ".join("(* %s %s)" % (_num(c, False), x) for c, x in zip(cs, xs))
+        out.append("(assert (and (>= %s %s) (<= %s %s)))" % (s, _num(lo, False), s, _num(lo + w, False)))
+    return "\n".join(out) + "\n"
+
+
+def subst_const(rng, logic):
+    """top-level equalities  x = <big constant>  (the arithmetic substitution pass rewrites the other
+    constraints with them) next to ordinary big-coefficient constraints"""
+    real = logic == "QF_LRA"
+    n = rng.randint(4, 6)
+    xs = ["x%d" % i for i in range(n)]
+    out = ["(set-logic %s)" % logic] + ["(declare-fun %s () %s)" % (x, "Real" if real else "Int") for x in xs]
+    fixed = rng.sample(xs, rng.randint(2, 3))
+    val = {}
+    for x in fixed:
+        val[x] = _big(rng)
+        out.append("(assert (= %s %s))" % (x, _num(val[x], real)))
+    if not real:
+        out += ["(assert (and (<= %s %s) (<= %s %s)))" % (_num(-2 ** 70, False), x, x, _num(2 ** 70, False)) for x in xs if x not in fixed]
+    for _ in range(rng.randint(3, 6)):
+        ts = rng.sample(xs, rng.randint(2, min(4, n)))
+        if not any(x in fixed for x in ts):
+            ts[0] = rng.choice(fixed)
+        s = "(+ %s)" % " ".join("(* %s %s)" % (_num(_big(rng) if rng.random() < 0.7 else rng.randint(1, 9), real), x) for x in ts)
+        out.append("(assert (%s %s %s))" % (rng.choice(["<=", ">="]), s, _num(_big(rng) * rng.choice([1, 2 ** 30]), real)))
+    a, b = rng.sample(xs, 2)
+    out.append("(assert (or (< %s %s) (> %s (+ %s %s))))" % (a, b, a, b, _num(abs(_big(rng)), real)))
+    return "\n".join(out) + "\n"
+
+
 def xor_chain(rng, n, sat):
     """x1 xor x2 xor ... xor xn = parity, as a chain of fresh Booleans t_i = t_{i-1} xor x_i (CNF), plus units
     fixing every x_i; unsatisfiable when the forced parity is the wrong one.  Every t_i is a variable the
